@@ -3552,6 +3552,10 @@ func fine(n int) []int {
 `
 
 func ruleResliceInput(prog *Program, rep *Report, rels ...string) {
-	rep.Rules = append(rep.Rules, "M-inplace: no function of package jp uses a zero-length reslice of its input (a parameter or a type-switch binding: `ns := tv[:0]`) as the buffer for the elements it keeps: removal builds a fresh slice and leaves the input array as it was")
-	runSynRule(prog, rep, "M-inplace", rels, matchResliceInput, fixtureResliceInput, 1, 1)
+	rep.Rules = append(rep.Rules, "M-inplace: no function of the package uses a zero-length reslice of its input (a parameter or a type-switch binding: `ns := tv[:0]`) as the buffer for the elements it keeps: removal builds a fresh slice and leaves the input array as it was")
+	floor := 1
+	if len(rels) == 1 && rels[0] == "asm" {
+		floor = 0 // no zero-length reslice exists in asm today: the fixture is the positive control
+	}
+	runSynRule(prog, rep, "M-inplace", rels, matchResliceInput, fixtureResliceInput, 1, floor)
 }
